@@ -419,6 +419,55 @@ class Model:
             c.loops = [x for x in c.loops if x is not lp]
         return {OK}
 
+    def parse_into(self, ci, doc, prune):
+        """effect of parsing a small well-formed document (list of (block code, items, frames)) into CIF ci with an
+        all-accepting error callback: an existing block / frame is re-opened (CIF_DUP_BLOCKCODE / CIF_DUP_FRAMECODE is
+        reported), an item whose name the container already has is reported (CIF_DUP_ITEMNAME) and ignored.
+        prune: whether packet-less loops of every container the parser visited are removed (undocumented either way).
+        Returns the list of error codes in document order."""
+        cif = self.cifs[ci]
+        errs = []
+
+        def items_into(c, items):
+            for name, v in items:
+                n = norm(name)
+                if c.find_item(n) is not None:
+                    errs.append(DUP_ITEMNAME)
+                    continue
+                sc = [x for x in c.loops if x.is_scalar()]
+                if sc:
+                    sl = sc[0]
+                else:
+                    sl = Loop('', [])
+                    c.loops.append(sl)
+                sl.names[n] = name
+                if not sl.packets:
+                    sl.packets.append({})
+                sl.packets[0][n] = v
+        for code, items, frames in doc:
+            n = norm(code)
+            if n in cif.blocks:
+                errs.append(DUP_BLOCKCODE)
+                b = cif.blocks[n]
+            else:
+                b = Container(code, True)
+                cif.blocks[n] = b
+            items_into(b, items)
+            for fcode, fitems in frames:
+                fn = norm(fcode)
+                if fn in b.frames:
+                    errs.append(DUP_FRAMECODE)
+                    f = b.frames[fn]
+                else:
+                    f = Container(fcode, False)
+                    b.frames[fn] = f
+                items_into(f, fitems)
+                if prune:
+                    f.loops = [x for x in f.loops if len(x.packets) > 0]
+            if prune:
+                b.loops = [x for x in b.loops if len(x.packets) > 0]
+        return errs
+
     def drop_valueless_all(self):
         n = [0]
 
